@@ -46,7 +46,7 @@ func init() {
 		},
 		Run:            c15Run,
 		Replay:         c15Replay,
-		QuickBudget:    55 * time.Second,
+		QuickBudget:    240 * time.Second,
 		ThoroughBudget: 9 * time.Minute,
 	})
 }
